@@ -450,7 +450,7 @@ func termCorpus(t *testing.T, out *sink, cases *int) {
 		base := runtime.NumGoroutine()
 		for _, c := range checks {
 			q, _ := (&ketoapi.RelationTuple{}).FromString(c)
-			for _, rd := range []int{0, 3, 8} {
+			for _, rd := range []int{0, 3, 8, 1000000} { // a huge request depth is capped by the global limit
 				termOne(ee, out, q, rd, base, false, cases)
 			}
 		}
